@@ -101,17 +101,9 @@ private theorem push_inv (st : St) (r : Ref) (b : String) (h : Inv st r) :
   · simp [pushS, hnext]
   · simp only [List.length_append, List.length_cons, List.length_nil]; omega
 
-/-- **One step refines the reference**: same writes, and the invariant is preserved, for every operation. -/
-theorem C10_step_refines (st : St) (r : Ref) (op : Op) (h : Inv st r) :
-    (step st op).2 = (refStep r op).2 ∧ Inv (step st op).1 (refStep r op).1 := by
-  cases op with
-  | sendStanza b => exact ⟨rfl, push_inv st r b h⟩
-  | sendRaw b => exact ⟨rfl, push_inv st r b h⟩
-  | sendNonza b => exact ⟨rfl, h⟩
-  | sendFail b => exact ⟨rfl, push_inv st r b h⟩
-  | req b => exact ⟨rfl, h⟩
-  | inbound => exact ⟨rfl, h⟩
-  | ack a =>
+/-- an acknowledgement refines the reference (whether or not the retransmission can be written) -/
+theorem C10_ack_refines (st : St) (r : Ref) (a : Nat) (h : Inv st r) :
+    (step st (.ack a)).2 = (refStep r (.ack a)).2 ∧ Inv (step st (.ack a)).1 (refStep r (.ack a)).1 := by
     obtain ⟨hq, hl, hd⟩ := h
     have hlen : r.held.length = r.accepted.length - r.delivered := by simp [Ref.held]
     -- how many entries the acknowledgement drops
@@ -132,6 +124,20 @@ theorem C10_step_refines (st : St) (r : Ref) (op : Op) (h : Inv st r) :
     · simp only [List.isEmpty_iff, mkQ_nil_iff, Ref.held, mkQ_stz]
     · simp [Ref.held]
     · show max r.delivered (min a r.accepted.length) ≤ r.accepted.length; omega
+
+
+/-- **One step refines the reference**: same writes, and the invariant is preserved, for every operation. -/
+theorem C10_step_refines (st : St) (r : Ref) (op : Op) (h : Inv st r) :
+    (step st op).2 = (refStep r op).2 ∧ Inv (step st op).1 (refStep r op).1 := by
+  cases op with
+  | sendStanza b => exact ⟨rfl, push_inv st r b h⟩
+  | sendRaw b => exact ⟨rfl, push_inv st r b h⟩
+  | sendNonza b => exact ⟨rfl, h⟩
+  | sendFail b => exact ⟨rfl, push_inv st r b h⟩
+  | req b => exact ⟨rfl, h⟩
+  | inbound => exact ⟨rfl, h⟩
+  | ack a => exact C10_ack_refines st r a h
+  | ackFail a => exact ⟨rfl, (C10_ack_refines st r a h).2⟩
 
 /-- **Refinement for every outbound history**: whatever sequence of Send / SendRaw / `<r/>` / `<a/>` sends and
 acknowledgements with any h (below, equal to or above the number sent, repeated, stale), the writes are those of
